@@ -1,4 +1,5 @@
 import Knut.Model.BalanceReport
+import Knut.Spec.Ledger
 /-!
 # Model of `knut balance` (cmd/commands/balance.go execute) from model directives to the rendered text
 -/
@@ -65,6 +66,27 @@ def run (f : BalanceFlags) (ds : List Directive) : CmdOutcome :=
       match Table.renderText { thousands := f.thousands, round := f.digits } t with
       | .ok cs => .ok (String.ofList cs)
       | .panic s => .panic s
+
+/-- the same command with the report entries taken from the independent ledger specification
+(`Spec.ledgerEntries`) instead of the pipeline; defined for unvalued reports of accepted journals -/
+def runSpec (f : BalanceFlags) (ds : List Directive) : CmdOutcome :=
+  let b := Builder.ofList ds
+  match newPartition (window f b) f.interval f.last with
+  | .panic s => .panic s
+  | .ok part =>
+    let b := if f.close then b.ensureDays part.startDates else b
+    let cfg : BalCfg := { valuation := none, span := part.span, periods := part.periods, close := f.close,
+                          mapping := f.mapping, remap := f.remap, accountFilter := f.accountFilter,
+                          commodityFilter := f.commodityFilter }
+    match Check.run b.build with
+    | .error _ => .error "processing"
+    | .ok _ =>
+      let t := BalanceReport.table (renderCfg f part) (Spec.ledgerEntries cfg b.build)
+      if f.csv then .ok (String.ofList (Table.renderCSV t))
+      else
+        match Table.renderText { thousands := f.thousands, round := f.digits } t with
+        | .ok cs => .ok (String.ofList cs)
+        | .panic s => .panic s
 
 end BalanceCmd
 end Knut
